@@ -402,19 +402,55 @@ fn configured_route(r: &mut Report) {
         compare_route(r, "tcp", &cfg, res, seq);
     }
 }
+/// The analyzers' own parallel mode end to end: `with_config` (+ `init_pool`) + `analyze_pcap` on a capture file, compared
+/// with the same analyzer's sequential `analyze_pcap` on the same file. The queue holds the whole trace, so nothing may
+/// be lost -- in particular not the packets that are still queued when the file has been read to its end.
+fn pcap_route(r: &mut Report, thorough: bool) {
+    huginn_net_tcp::uptime::verif_clock::set_global(T0);
+    let trace = interleave(&conn_frames());
+    let cap = 64usize;
+    let seq_tcp: Vec<String> = crate::drv::tcp_pcap(&trace, None, cap).unwrap_or_default().into_iter().filter(|x| !x.is_empty()).map(|x| format!("{x:?}")).collect();
+    let seq_http: Vec<String> = crate::drv::http_pcap(&trace, None, cap).unwrap_or_default().into_iter().filter(|x| !x.is_empty()).map(|x| format!("{x:?}")).collect();
+    let seq_tls: Vec<String> = crate::drv::tls_pcap(&trace, None, cap).unwrap_or_default().into_iter().map(|x| format!("{x:?}")).collect();
+    if seq_tcp.len() < 24 || seq_http.len() < 8 || seq_tls.len() < 4 {
+        r.machinery_error(format!("pcap-route: the sequential references are too small ({} / {} / {})", seq_tcp.len(), seq_http.len(), seq_tls.len()));
+    }
+    let worker_counts: &[usize] = if thorough { &[1, 2, 3, 4, 8, 16] } else { &[1, 2, 4] };
+    let rounds = if thorough { 5 } else { 2 };
+    for &workers in worker_counts {
+        for batch in [1usize, 2, 32] {
+            for timeout in [1u64, 10] {
+                for round in 0..rounds {
+                    let cfg = json!({"kind": "pcap-route", "workers": workers, "batch_size": batch, "timeout_ms": timeout, "round": round});
+                    let res = guarded(|| crate::drv::tcp_pcap_parallel(&trace, cap, workers, batch, timeout).map(|v| v.into_iter().filter(|x| !x.is_empty()).map(|x| format!("{x:?}")).collect::<Vec<_>>()));
+                    compare_named(r, "pcap-route", "tcp", &cfg, res, seq_tcp.clone());
+                    let res = guarded(|| crate::drv::http_pcap_parallel(&trace, cap, workers, batch, timeout).map(|v| v.into_iter().filter(|x| !x.is_empty()).map(|x| format!("{x:?}")).collect::<Vec<_>>()));
+                    compare_named(r, "pcap-route", "http", &cfg, res, seq_http.clone());
+                    for init in [true, false] {
+                        let res = guarded(|| crate::drv::tls_pcap_parallel(&trace, cap, workers, batch, timeout, init).map(|v| v.into_iter().map(|x| format!("{x:?}")).collect::<Vec<_>>()));
+                        compare_named(r, "pcap-route", if init { "tls" } else { "tls-own-pool" }, &cfg, res, seq_tls.clone());
+                    }
+                }
+            }
+        }
+    }
+}
 fn compare_route(r: &mut Report, pool: &str, cfg: &Value, res: Result<Result<Vec<String>, String>, String>, seq: Vec<String>) {
+    compare_named(r, "configured-route", pool, cfg, res, seq)
+}
+fn compare_named(r: &mut Report, route: &str, pool: &str, cfg: &Value, res: Result<Result<Vec<String>, String>, String>, seq: Vec<String>) {
     r.exec(seq.len() as u64);
     match res {
-        Err(p) => r.dev(format!("C10/configured-route/{pool}/panic"), "panic", || json!({"config": cfg, "detail": p})),
-        Ok(Err(e)) => r.dev(format!("C10/configured-route/{pool}/dispatch-failed"), "dispatch", || json!({"config": cfg, "detail": e})),
+        Err(p) => r.dev(format!("C10/{route}/{pool}/panic"), "panic", || json!({"config": cfg, "detail": p})),
+        Ok(Err(e)) => r.dev(format!("C10/{route}/{pool}/dispatch-failed"), "dispatch", || json!({"config": cfg, "detail": e})),
         Ok(Ok(got)) => {
-            r.outcome(&("route", pool, got.len()));
+            r.outcome(&(route, pool, got.len()));
             let (mut a, mut b) = (got.clone(), seq.clone());
             a.sort();
             b.sort();
             if a != b {
                 let missing = b.iter().filter(|x| !a.contains(x)).count();
-                r.dev(format!("C10/configured-route/{pool}/results-differ-from-sequential"), "multiset", || json!({"config": cfg, "sequential": seq.len(), "pool": got.len(), "missing": missing, "first_missing": b.iter().find(|x| !a.contains(x)).map(|s| &s[..s.len().min(300)])}));
+                r.dev(format!("C10/{route}/{pool}/results-differ-from-sequential"), "multiset", || json!({"config": cfg, "sequential": seq.len(), "pool": got.len(), "missing": missing, "first_missing": b.iter().find(|x| !a.contains(x)).map(|s| &s[..s.len().min(300)])}));
             }
         }
     }
@@ -425,9 +461,10 @@ pub fn run(thorough: bool) -> Outcome {
     routing(&mut r, thorough);
     pools(&mut r, thorough);
     configured_route(&mut r);
+    pcap_route(&mut r, thorough);
     Outcome {
         report: r,
-        rule: "routing: every ordered same-family pair of 144 endpoints (12 IPv4 + 6 IPv6 addresses with all bytes varied x 8 ports), raw and Ethernet, x worker counts: SYN, SYN+ACK, request, response, further segment and FIN of a connection on one HTTP worker; all client segments on one TLS worker; everything a host sends on one TCP worker. pools: a 12-connection interleaved trace through real TCP / HTTP / TLS pools for worker counts x batch {1,2,32} x timeout {1,10} ms (schedules sampled, not enumerated) compared with the sequential analyzers as multiset and per connection / sender order; configured route: with_config + init_pool + worker_pool of each analyzer with 12 simultaneously open connections, queue size 4, capacity 64 (TCP: timestamped SYN and ACK one second apart under the injected clock), lock-step dispatch, results equal to the sequential analyzer; distinct = distinct routing / delivery outcomes".into(),
+        rule: "routing: every ordered same-family pair of 144 endpoints (12 IPv4 + 6 IPv6 addresses with all bytes varied x 8 ports), raw and Ethernet, x worker counts: SYN, SYN+ACK, request, response, further segment and FIN of a connection on one HTTP worker; all client segments on one TLS worker; everything a host sends on one TCP worker. pools: a 12-connection interleaved trace through real TCP / HTTP / TLS pools for worker counts x batch {1,2,32} x timeout {1,10} ms (schedules sampled, not enumerated) compared with the sequential analyzers as multiset and per connection / sender order; configured route: with_config + init_pool + worker_pool of each analyzer with 12 simultaneously open connections, queue size 4, capacity 64 (TCP: timestamped SYN and ACK one second apart under the injected clock), lock-step dispatch, results equal to the sequential analyzer; pcap route: with_config (+ init_pool) + analyze_pcap of each analyzer on the 12-connection trace written to a capture file, queue larger than the trace, worker counts x batch {1,2,32} x timeout {1,10} ms x repeated rounds (schedules sampled), results equal as a multiset to the same analyzer's sequential analyze_pcap; distinct = distinct routing / delivery outcomes".into(),
         exhaustive: true,
         bounds: json!({"endpoints": endpoints().len(), "note": "the pool part samples schedules; schedule coverage comes from the loom engine"}),
     }
@@ -437,6 +474,10 @@ pub fn replay(ex: &Value) -> Report {
     let mut r = Report::new();
     if ex["kind"].as_str() == Some("routing") {
         routing(&mut r, true);
+    } else if ex["kind"].as_str() == Some("pcap-route") || ex["config"]["kind"].as_str() == Some("pcap-route") {
+        pcap_route(&mut r, false);
+    } else if ex["config"]["kind"].as_str() == Some("configured-route") {
+        configured_route(&mut r);
     } else {
         pools(&mut r, false);
     }
